@@ -79,8 +79,23 @@ impl Prop for C16 {
         v["probes"] = json!(rng.derive("n").range(4, 10));
         v
     }
+    fn hang_timeout_s(&self) -> u64 {
+        // the runs at altitude mine up to 980000 blocks before they report
+        1200
+    }
+    /// the first two runs of every batch work at the heights where the live chains are (above every activation height
+    /// the code knows about), not at the bottom of the chain: signet at 330000, mainnet at 980000
+    fn case_for_run(&self, i: u64, seed: u64, tier: Tier) -> Value {
+        let mut v = self.generate(seed, tier);
+        if i < 2 {
+            v["config"]["network"] = json!(if i == 0 { "signet" } else { "mainnet" });
+            v["ops"] = json!([{"Init": {"hash": "Zero"}}]);
+            v["altitude"] = json!(if i == 0 { 330_000u64 } else { 980_000u64 });
+        }
+        v
+    }
     fn rule(&self) -> String {
-        "case = seeded history (commits, reorgs) that leaves some Store contracts deployed, then 4-10 probes at the block boundary. Each probe draws a program (storage loops, refund-dominated slot clearing, logs, cheap loops, nested CALL, STATICCALL to precompiles, CREATE2, revert) and (a) submits it, as hex or as raw / zstd base64, with an inscription length from {0,1,2,need-1,need,need+1,2*need,2000,10^6,2^64-1}: receipt gasUsed <= min(len*12000, 2^64-1), and a failed transaction leaves accounts/code/storage unchanged except its sender's nonce; (b) closes the estimate loop (in a third of the runs also across a reorg: estimate, orphan the block that made the call cheap, regrow the height differently, estimate again, submit): eth_estimateGas -> brc20_call with inscription_byte_len = ceil(estimate/12000) must succeed with the output eth_call returned. distinct = sha256 of (ops, probe seed); non-trivial = at least one estimate loop closed and one transaction failed for lack of allowance".into()
+        "case = seeded history (commits, reorgs) that leaves some Store contracts deployed, then 4-10 probes at the block boundary. Each probe draws a program (storage loops, refund-dominated slot clearing, logs, cheap loops, nested CALL, STATICCALL to precompiles, CREATE2, revert) and (a) submits it, as hex or as raw / zstd base64, with an inscription length from {0,1,2,need-1,need,need+1,2*need,2000,10^6,2^64-1}: receipt gasUsed <= min(len*12000, 2^64-1), and a failed transaction leaves accounts/code/storage unchanged except its sender's nonce; (b) closes the estimate loop (in a third of the runs also across a reorg: estimate, orphan the block that made the call cheap, regrow the height differently, estimate again, submit): eth_estimateGas -> brc20_call with inscription_byte_len = ceil(estimate/12000) must succeed with the output eth_call returned. The first two runs of every batch do this at height 330000 of a signet chain and 980000 of a mainnet chain (above the activation heights of the live networks; empty blocks mined in committed chunks). distinct = sha256 of (ops, probe seed); non-trivial = at least one estimate loop closed and one transaction failed for lack of allowance".into()
     }
     fn assumptions(&self) -> Vec<String> {
         vec!["programs that swallow sub-call failures (Multi) or read GAS/TIMESTAMP/PREVRANDAO/0xfa are excluded, as the statement allows".into()]
@@ -101,6 +116,26 @@ impl Prop for C16 {
         if w.open.is_some() {
             w.exec(sc.ops.len(), &Op::ClearCaches);
         }
+        if let (Some(alt), None) = (case.get("altitude").and_then(|a| a.as_u64()), &violation) {
+            // empty blocks in committed chunks, straight through the engine (no per-block bookkeeping)
+            let mut h = w.height.unwrap_or(0);
+            while h < alt {
+                let n = (alt - h).min(10_000);
+                let r = w.inst.call("brc20_mine", json!({"block_count": n, "timestamp": crate::world::BASE_TS + 100}));
+                let c = w.inst.call("brc20_commitToDatabase", json!([]));
+                if !r.is_ok() || !c.is_ok() {
+                    violation = Some(Violation::new("panic-in-history", json!({"mine": r.to_value(), "commit": c.to_value(), "height": h})));
+                    break;
+                }
+                h += n;
+            }
+            w.height = Some(h);
+            w.committed = Some(h);
+            w.max_finalised = Some(h);
+            w.uni.from_height = h.saturating_sub(2);
+            w.uni.max_height = h;
+            w.stats.add("blocks_mined_to_altitude", h);
+        }
         let mut rng = Rng::new(case["probe_seed"].as_u64().unwrap_or(1));
         let n = case["probes"].as_u64().unwrap_or(6);
         let (mut closed, mut starved) = (false, false);
@@ -114,7 +149,13 @@ impl Prop for C16 {
                     w.exec(base, &Op::Block { ts: 900_000 + id as u64, hash: HashMode::Zero, txs: vec![Tx { id, kind: TxKind::Deploy { sender: s, prog: DeployProg::Store }, len: LenPolicy::Generous, enc: Enc::Hex }], finalise: true });
                 }
             }
+            if w.book.contracts.iter().filter(|c| c.kind == "store").count() == 0 {
+                violation = Some(Violation::new("probe-tx-rejected", json!({"why": "a contract deployment with a generous inscription length did not create a contract", "height": w.height})));
+            }
             'probes: for k in 0..n {
+                if violation.is_some() {
+                    break 'probes;
+                }
                 let sender = rng.below(N_PK as u64) as u8;
                 // only Store contracts: the Probe contract reads time and randomness, which the statement excludes
                 let stores: Vec<String> = w.book.contracts.iter().filter(|c| c.kind == "store").map(|c| c.addr.clone()).collect();
